@@ -1,0 +1,700 @@
+// Verification hooks. Compiled only with `--cfg ractor_verif`; never part of a normal build.
+//
+// Three facilities, all inert until a harness switches them on:
+//  * an event sink (`emit`/`point`) that totally orders recorded steps under one mutex,
+//  * a thread controller (`spawn_controlled`/`step`) that parks controlled OS threads at `point`s,
+//  * a task gate (`gate`) that lets a driver decide which spawned task is polled next.
+
+#![allow(missing_docs, missing_debug_implementations, unreachable_pub, dead_code)]
+
+use std::cell::Cell;
+use std::collections::BTreeMap;
+use std::future::Future;
+use std::pin::Pin;
+use std::sync::atomic::AtomicBool;
+use std::sync::atomic::AtomicU64;
+use std::sync::atomic::Ordering;
+use std::sync::Arc;
+use std::sync::Condvar;
+use std::sync::Mutex;
+use std::task::Context;
+use std::task::Poll;
+use std::task::Wake;
+use std::task::Waker;
+
+use once_cell::sync::Lazy;
+
+// ------------------------------------------------------------------------------------------------
+// Event sink
+// ------------------------------------------------------------------------------------------------
+
+static ENABLED: AtomicBool = AtomicBool::new(false);
+
+/// A recorded value
+#[derive(Debug, Clone, PartialEq, Eq)]
+pub enum Val {
+    I(i64),
+    S(String),
+    L(Vec<i64>),
+}
+
+/// One recorded event
+#[derive(Debug, Clone)]
+pub struct Ev {
+    pub seq: u64,
+    pub who: String,
+    pub a: String,
+    pub obj: u64,
+    pub d: i64,
+    pub t: u64,
+    pub kv: Vec<(String, Val)>,
+}
+
+static NOW: AtomicU64 = AtomicU64::new(0);
+
+/// Virtual time stamp (ms) put on subsequent events; maintained by the task-engine driver
+pub fn set_now(ms: u64) {
+    NOW.store(ms, Ordering::SeqCst);
+}
+
+struct Sink {
+    seq: u64,
+    events: Vec<Ev>,
+}
+
+static SINK: Lazy<Mutex<Sink>> = Lazy::new(|| {
+    Mutex::new(Sink {
+        seq: 0,
+        events: Vec::new(),
+    })
+});
+
+thread_local! {
+    static CTL_ID: Cell<u64> = const { Cell::new(0) };
+    static CUR_TASK: Cell<u64> = const { Cell::new(0) };
+}
+
+/// Switch recording on or off
+pub fn enable(on: bool) {
+    ENABLED.store(on, Ordering::SeqCst);
+}
+
+pub fn enabled() -> bool {
+    ENABLED.load(Ordering::Relaxed)
+}
+
+fn who() -> String {
+    let c = CTL_ID.with(|c| c.get());
+    if c != 0 {
+        return format!("t{c}");
+    }
+    let k = CUR_TASK.with(|c| c.get());
+    if k != 0 {
+        return format!("k{k}");
+    }
+    "x".to_string()
+}
+
+/// The gated task currently being polled on this thread (0 = none)
+pub fn current_task() -> u64 {
+    CUR_TASK.with(|c| c.get())
+}
+
+/// Record an event with extra fields. The sequence number is assigned under the sink mutex.
+pub fn emit_kv(label: &str, obj: u64, d: i64, kv: Vec<(String, Val)>) {
+    if !ENABLED.load(Ordering::Relaxed) {
+        return;
+    }
+    let who = who();
+    let mut g = SINK.lock().unwrap_or_else(|e| e.into_inner());
+    g.seq += 1;
+    let seq = g.seq;
+    g.events.push(Ev {
+        seq,
+        who,
+        a: label.to_string(),
+        obj,
+        d,
+        t: NOW.load(Ordering::SeqCst),
+        kv,
+    });
+}
+
+/// Record an event
+pub fn emit(label: &str, obj: u64, d: i64) {
+    emit_kv(label, obj, d, Vec::new());
+}
+
+/// Take all recorded events
+pub fn take_events() -> Vec<Ev> {
+    let mut g = SINK.lock().unwrap_or_else(|e| e.into_inner());
+    std::mem::take(&mut g.events)
+}
+
+/// Numeric id used in events for an actor
+pub fn aid(id: crate::ActorId) -> u64 {
+    id.pid()
+}
+
+// ------------------------------------------------------------------------------------------------
+// Thread controller (engine H)
+// ------------------------------------------------------------------------------------------------
+
+/// State of a controlled thread as seen by the controller
+#[derive(Debug, Clone, PartialEq, Eq)]
+pub enum TState {
+    Running,
+    AtPoint(String, u64, i64),
+    Blocked,
+    Done,
+}
+
+struct Ctl {
+    m: Mutex<BTreeMap<u64, (TState, bool)>>,
+    cv: Condvar,
+}
+
+static CTL: Lazy<Ctl> = Lazy::new(|| Ctl {
+    m: Mutex::new(BTreeMap::new()),
+    cv: Condvar::new(),
+});
+
+/// The hook primitive: record the step that was just taken and, on a controlled thread,
+/// park until the controller releases this thread again.
+pub fn point(label: &'static str, obj: u64, d: i64) {
+    if !ENABLED.load(Ordering::Relaxed) {
+        return;
+    }
+    emit(label, obj, d);
+    park_here(label, obj, d);
+}
+
+/// Like `point` but with extra fields
+pub fn point_kv(label: &'static str, obj: u64, d: i64, kv: Vec<(String, Val)>) {
+    if !ENABLED.load(Ordering::Relaxed) {
+        return;
+    }
+    emit_kv(label, obj, d, kv);
+    park_here(label, obj, d);
+}
+
+fn park_here(label: &str, obj: u64, d: i64) {
+    let id = CTL_ID.with(|c| c.get());
+    if id == 0 {
+        return;
+    }
+    let mut g = CTL.m.lock().unwrap_or_else(|e| e.into_inner());
+    g.insert(id, (TState::AtPoint(label.to_string(), obj, d), false));
+    CTL.cv.notify_all();
+    loop {
+        if g.get(&id).map(|e| e.1).unwrap_or(true) {
+            g.insert(id, (TState::Running, false));
+            return;
+        }
+        g = CTL.cv.wait(g).unwrap_or_else(|e| e.into_inner());
+    }
+}
+
+/// Run `f` on a new OS thread that stops at every `point` until `step(id)` releases it.
+/// The thread first parks at a synthetic "start" point (not recorded).
+pub fn spawn_controlled<F: FnOnce() + Send + 'static>(
+    id: u64,
+    f: F,
+) -> std::thread::JoinHandle<()> {
+    assert!(id != 0);
+    CTL.m
+        .lock()
+        .unwrap_or_else(|e| e.into_inner())
+        .insert(id, (TState::Running, false));
+    std::thread::spawn(move || {
+        CTL_ID.with(|c| c.set(id));
+        park_here("start", 0, 0);
+        let r = std::panic::catch_unwind(std::panic::AssertUnwindSafe(f));
+        if r.is_err() {
+            emit("thread.panic", 0, 0);
+        }
+        CTL_ID.with(|c| c.set(0));
+        let mut g = CTL.m.lock().unwrap_or_else(|e| e.into_inner());
+        g.insert(id, (TState::Done, false));
+        CTL.cv.notify_all();
+    })
+}
+
+/// Wait until thread `id` is parked, blocked or done (used right after spawn).
+pub fn settle(id: u64) -> TState {
+    let mut g = CTL.m.lock().unwrap_or_else(|e| e.into_inner());
+    loop {
+        match g.get(&id) {
+            Some((TState::AtPoint(..), false)) | Some((TState::Done, _)) | Some((TState::Blocked, _)) => {
+                return g.get(&id).unwrap().0.clone()
+            }
+            _ => {}
+        }
+        g = CTL.cv.wait(g).unwrap_or_else(|e| e.into_inner());
+    }
+}
+
+/// Current state of a controlled thread
+pub fn tstate(id: u64) -> Option<TState> {
+    CTL.m
+        .lock()
+        .unwrap_or_else(|e| e.into_inner())
+        .get(&id)
+        .map(|e| e.0.clone())
+}
+
+/// Release one parked thread and wait until it parks again, blocks in `block_on_mini`, or finishes.
+/// A thread that is `Blocked` is not released; its state is returned as it is now.
+pub fn step(id: u64) -> TState {
+    let mut g = CTL.m.lock().unwrap_or_else(|e| e.into_inner());
+    match g.get(&id) {
+        Some((TState::AtPoint(..), false)) => {
+            let st = g.get(&id).unwrap().0.clone();
+            g.insert(id, (st, true));
+            CTL.cv.notify_all();
+        }
+        Some((TState::Done, _)) => return TState::Done,
+        Some((TState::Blocked, _)) => return TState::Blocked,
+        _ => {}
+    }
+    loop {
+        match g.get(&id) {
+            Some((TState::AtPoint(..), false)) | Some((TState::Done, _)) | Some((TState::Blocked, _)) => {
+                return g.get(&id).unwrap().0.clone()
+            }
+            _ => {}
+        }
+        g = CTL.cv.wait(g).unwrap_or_else(|e| e.into_inner());
+    }
+}
+
+/// Forget all controlled threads (between runs)
+pub fn reset_threads() {
+    CTL.m.lock().unwrap_or_else(|e| e.into_inner()).clear();
+}
+
+struct MiniWaker {
+    id: u64,
+    woken: AtomicBool,
+}
+
+impl Wake for MiniWaker {
+    fn wake(self: Arc<Self>) {
+        self.wake_by_ref();
+    }
+    fn wake_by_ref(self: &Arc<Self>) {
+        self.woken.store(true, Ordering::SeqCst);
+        let mut g = CTL.m.lock().unwrap_or_else(|e| e.into_inner());
+        if let Some((TState::Blocked, _)) = g.get(&self.id) {
+            // woken while blocked: becomes steppable again at a synthetic point
+            g.insert(self.id, (TState::AtPoint("woken".to_string(), 0, 0), false));
+        }
+        CTL.cv.notify_all();
+    }
+}
+
+/// A tiny `block_on` for controlled threads: when the future is pending the thread reports
+/// `Blocked`; a wake-up turns it into a parked thread at the synthetic point "woken".
+pub fn block_on_mini<F: Future>(f: F) -> F::Output {
+    let id = CTL_ID.with(|c| c.get());
+    let mw = Arc::new(MiniWaker {
+        id,
+        woken: AtomicBool::new(false),
+    });
+    let waker: Waker = mw.clone().into();
+    let mut cx = Context::from_waker(&waker);
+    let mut f = std::pin::pin!(f);
+    loop {
+        mw.woken.store(false, Ordering::SeqCst);
+        if let Poll::Ready(v) = f.as_mut().poll(&mut cx) {
+            return v;
+        }
+        if id == 0 {
+            while !mw.woken.load(Ordering::SeqCst) {
+                std::thread::yield_now();
+            }
+            continue;
+        }
+        let mut g = CTL.m.lock().unwrap_or_else(|e| e.into_inner());
+        if mw.woken.load(Ordering::SeqCst) {
+            g.insert(id, (TState::AtPoint("woken".to_string(), 0, 0), false));
+        } else {
+            g.insert(id, (TState::Blocked, false));
+        }
+        CTL.cv.notify_all();
+        loop {
+            match g.get(&id) {
+                Some((TState::AtPoint(..), true)) => {
+                    g.insert(id, (TState::Running, false));
+                    break;
+                }
+                _ => {}
+            }
+            g = CTL.cv.wait(g).unwrap_or_else(|e| e.into_inner());
+        }
+    }
+}
+
+// ------------------------------------------------------------------------------------------------
+// Task gate (engine T)
+// ------------------------------------------------------------------------------------------------
+
+#[derive(Default)]
+struct TaskInfo {
+    name: String,
+    runnable: bool,
+    tokio_waker: Option<Waker>,
+    polls: u64,
+}
+
+#[derive(Default)]
+struct SchedInner {
+    tasks: BTreeMap<u64, TaskInfo>,
+    permit: Option<u64>,
+    in_flight: Option<u64>,
+    driver_waker: Option<Waker>,
+    steps: u64,
+}
+
+static SCHED_ON: AtomicBool = AtomicBool::new(false);
+static NEXT_TASK: AtomicU64 = AtomicU64::new(1);
+static SCHED: Lazy<Mutex<SchedInner>> = Lazy::new(|| Mutex::new(SchedInner::default()));
+
+fn sched() -> std::sync::MutexGuard<'static, SchedInner> {
+    SCHED.lock().unwrap_or_else(|e| e.into_inner())
+}
+
+/// Install (or remove) the scheduler. Tasks spawned while it is off are never gated.
+pub fn sched_enable(on: bool) {
+    let mut g = sched();
+    g.tasks.clear();
+    g.permit = None;
+    g.in_flight = None;
+    g.driver_waker = None;
+    g.steps = 0;
+    SCHED_ON.store(on, Ordering::SeqCst);
+}
+
+struct TaskWaker {
+    id: u64,
+}
+
+impl Wake for TaskWaker {
+    fn wake(self: Arc<Self>) {
+        self.wake_by_ref();
+    }
+    fn wake_by_ref(self: &Arc<Self>) {
+        let mut g = sched();
+        // a waker may fire after its task finished: ignore it
+        if let Some(t) = g.tasks.get_mut(&self.id) {
+            t.runnable = true;
+            if let Some(w) = g.driver_waker.take() {
+                drop(g);
+                w.wake();
+            }
+        }
+    }
+}
+
+/// A future wrapper that only polls its inner future when the driver granted it the permit
+pub struct Gate<F> {
+    id: u64,
+    done: bool,
+    inner: Pin<Box<F>>,
+}
+
+/// Wrap a future that is about to be spawned
+pub fn gate<F: Future>(name: Option<&str>, inner: F) -> Gate<F> {
+    if !SCHED_ON.load(Ordering::SeqCst) {
+        return Gate {
+            id: 0,
+            done: false,
+            inner: Box::pin(inner),
+        };
+    }
+    let id = NEXT_TASK.fetch_add(1, Ordering::SeqCst);
+    let parent = current_task();
+    let mut g = sched();
+    g.tasks.insert(
+        id,
+        TaskInfo {
+            name: name.unwrap_or("").to_string(),
+            runnable: true,
+            tokio_waker: None,
+            polls: 0,
+        },
+    );
+    let w = g.driver_waker.take();
+    drop(g);
+    emit_kv(
+        "task.new",
+        id,
+        parent as i64,
+        vec![("name".to_string(), Val::S(name.unwrap_or("").to_string()))],
+    );
+    if let Some(w) = w {
+        w.wake();
+    }
+    Gate {
+        id,
+        done: false,
+        inner: Box::pin(inner),
+    }
+}
+
+impl<F: Future> Future for Gate<F> {
+    type Output = F::Output;
+    fn poll(self: Pin<&mut Self>, cx: &mut Context<'_>) -> Poll<F::Output> {
+        let this = self.get_mut();
+        let inner = this.inner.as_mut();
+        if this.id == 0 {
+            return inner.poll(cx);
+        }
+        let id = this.id;
+        {
+            let mut g = sched();
+            if let Some(t) = g.tasks.get_mut(&id) {
+                t.tokio_waker = Some(cx.waker().clone());
+            }
+            if g.permit != Some(id) {
+                return Poll::Pending;
+            }
+            g.permit = None;
+            g.in_flight = Some(id);
+            g.steps += 1;
+            if let Some(t) = g.tasks.get_mut(&id) {
+                t.runnable = false;
+                t.polls += 1;
+            }
+        }
+        let waker: Waker = Arc::new(TaskWaker { id }).into();
+        let mut icx = Context::from_waker(&waker);
+        let prev = CUR_TASK.with(|c| c.replace(id));
+        let r = inner.poll(&mut icx);
+        CUR_TASK.with(|c| c.set(prev));
+        let mut g = sched();
+        g.in_flight = None;
+        if r.is_ready() {
+            this.done = true;
+            g.tasks.remove(&id);
+        }
+        let w = g.driver_waker.take();
+        drop(g);
+        if r.is_ready() {
+            emit("task.done", id, 0);
+        }
+        if let Some(w) = w {
+            w.wake();
+        }
+        r
+    }
+}
+
+impl<F> Drop for Gate<F> {
+    fn drop(&mut self) {
+        if self.id != 0 && !self.done {
+            // the task was aborted (or its runtime shut down): the inner future is dropped right
+            // after this body, still attributed to this task.
+            emit("task.dropped", self.id, 0);
+            let mut g = sched();
+            g.tasks.remove(&self.id);
+            if g.permit == Some(self.id) {
+                g.permit = None;
+            }
+            let w = g.driver_waker.take();
+            drop(g);
+            if let Some(w) = w {
+                w.wake();
+            }
+        }
+    }
+}
+
+/// Snapshot the driver needs: ids (sorted) of runnable tasks with their names, provided no step is
+/// in flight and no permit is outstanding.
+pub fn runnable() -> Option<Vec<(u64, String)>> {
+    let g = sched();
+    if g.in_flight.is_some() || g.permit.is_some() {
+        return None;
+    }
+    Some(
+        g.tasks
+            .iter()
+            .filter(|(_, t)| t.runnable)
+            .map(|(id, t)| (*id, t.name.clone()))
+            .collect(),
+    )
+}
+
+/// All live gated tasks (id, name, runnable)
+pub fn live_tasks() -> Vec<(u64, String, bool)> {
+    sched()
+        .tasks
+        .iter()
+        .map(|(id, t)| (*id, t.name.clone(), t.runnable))
+        .collect()
+}
+
+/// Number of steps granted so far
+pub fn steps() -> u64 {
+    sched().steps
+}
+
+/// Future the driver awaits: ready with the runnable set as soon as a choice can be made
+pub struct DriverWait;
+
+impl Future for DriverWait {
+    type Output = Vec<(u64, String)>;
+    fn poll(self: Pin<&mut Self>, cx: &mut Context<'_>) -> Poll<Self::Output> {
+        let mut g = sched();
+        if g.in_flight.is_none() && g.permit.is_none() {
+            let r: Vec<(u64, String)> = g
+                .tasks
+                .iter()
+                .filter(|(_, t)| t.runnable)
+                .map(|(id, t)| (*id, t.name.clone()))
+                .collect();
+            if !r.is_empty() {
+                return Poll::Ready(r);
+            }
+        }
+        g.driver_waker = Some(cx.waker().clone());
+        Poll::Pending
+    }
+}
+
+/// Future the driver awaits after a grant: ready when no step is in flight and no permit is pending
+pub struct StepDone;
+
+impl Future for StepDone {
+    type Output = ();
+    fn poll(self: Pin<&mut Self>, cx: &mut Context<'_>) -> Poll<()> {
+        let mut g = sched();
+        if g.in_flight.is_none() && g.permit.is_none() {
+            return Poll::Ready(());
+        }
+        g.driver_waker = Some(cx.waker().clone());
+        Poll::Pending
+    }
+}
+
+/// Let task `id` take exactly one step (one poll)
+pub fn grant(id: u64) {
+    let mut g = sched();
+    if !g.tasks.contains_key(&id) {
+        return;
+    }
+    g.permit = Some(id);
+    let w = g.tasks.get(&id).and_then(|t| t.tokio_waker.clone());
+    drop(g);
+    if let Some(w) = w {
+        w.wake();
+    }
+}
+
+// ------------------------------------------------------------------------------------------------
+// Detached cells: an actor's shared half with no task behind it (engine H)
+// ------------------------------------------------------------------------------------------------
+
+use crate::actor::actor_cell::ActorPortSet;
+use crate::actor::actor_properties::MuxedMessage;
+use crate::actor::ActorLifecycleGuard;
+use crate::Actor;
+use crate::ActorCell;
+use crate::ActorStatus;
+use crate::SpawnErr;
+use crate::SupervisionEvent;
+
+/// What a consumer pulled off the message port
+#[derive(Debug)]
+pub enum Recv {
+    Msg(crate::message::BoxedMessage),
+    Drain,
+    Empty,
+    Closed,
+}
+
+/// A cell, its receiving half and its lifecycle guard, with nothing running
+pub struct Detached {
+    pub cell: ActorCell,
+    ports: Option<ActorPortSet>,
+    guard: Option<ActorLifecycleGuard>,
+}
+
+/// Create what `ActorRuntime::new` creates, without a task
+pub fn detached<A: Actor>(name: Option<String>) -> Result<Detached, SpawnErr> {
+    let (cell, ports) = ActorCell::new::<A>(name)?;
+    let guard = ActorLifecycleGuard::new(cell.clone());
+    Ok(Detached {
+        cell,
+        ports: Some(ports),
+        guard: Some(guard),
+    })
+}
+
+impl Detached {
+    /// publish a status the way the actor task would
+    pub fn set_status(&self, st: ActorStatus) -> ActorStatus {
+        self.cell.set_status(st)
+    }
+    pub fn mark_running(&mut self) {
+        if let Some(g) = self.guard.as_mut() {
+            g.mark_running();
+        }
+    }
+    /// non-blocking receive on the message port
+    pub fn try_recv(&mut self) -> Recv {
+        match self.ports.as_mut() {
+            None => Recv::Closed,
+            Some(p) => match p.message_rx.try_recv() {
+                Ok(MuxedMessage::Message(m)) => Recv::Msg(m),
+                Ok(MuxedMessage::Drain) => Recv::Drain,
+                Err(tokio::sync::mpsc::error::TryRecvError::Empty) => Recv::Empty,
+                Err(tokio::sync::mpsc::error::TryRecvError::Disconnected) => Recv::Closed,
+            },
+        }
+    }
+    pub fn try_recv_signal(&mut self) -> bool {
+        self.ports
+            .as_mut()
+            .map(|p| p.signal_rx.try_recv().is_ok())
+            .unwrap_or(false)
+    }
+    pub fn try_recv_stop(&mut self) -> bool {
+        self.ports
+            .as_mut()
+            .map(|p| p.stop_rx.try_recv().is_ok())
+            .unwrap_or(false)
+    }
+    pub fn try_recv_supervision(&mut self) -> Option<SupervisionEvent> {
+        self.ports
+            .as_mut()
+            .and_then(|p| p.supervisor_rx.try_recv().ok())
+    }
+    /// drop the receiving half (close + flush), as the actor task does on exit
+    pub fn drop_ports(&mut self) {
+        self.ports.take();
+    }
+    /// run the guard's cleanup with a terminal event
+    pub fn finish(&mut self, evt: SupervisionEvent) {
+        if let Some(g) = self.guard.take() {
+            g.finish(evt);
+        }
+    }
+    /// drop the guard (cancellation path)
+    pub fn drop_guard(&mut self) {
+        self.guard.take();
+    }
+    pub fn terminate(&self) {
+        self.cell.terminate();
+    }
+}
+
+/// raw admission word of a cell
+pub fn admission_word(cell: &ActorCell) -> usize {
+    cell.inner.message_admission.load(Ordering::SeqCst)
+}
+
+pub fn num_children(cell: &ActorCell) -> usize {
+    cell.inner.tree.get_children().len()
+}
